@@ -263,6 +263,20 @@ PLAN = {
         quick=[rapid("prop", "TestProp", 50000)],
         thorough=[rapid("prop", "TestProp", 300000, shards=16), fuzz("fuzz", "FuzzC18", 40)],
     ),
+    "C19": dict(
+        pkg="c19",
+        rule=("stateful over the process-global style space: rapid-generated histories of 2..14 actions over {register a new decoration (any built-in or custom populated decoration) under a fresh name from [A-Za-z0-9_-]+ with mixed case, "
+              "check auto.ListStyles twice in a row, check a style string}. Style strings are built from a registered or not-yet-registered name, a built-in decoration, a sub-package name, 'texttable', an unknown name or the empty string, in the forms bare / "
+              "'texttable.'+name / 'TextTable.'+name / 'TEXTTABLE.'+name / case-flipped sub-package name / with arbitrary trailing sections. Oracle: the listing is sorted and contains csv, html, json, markdown, the six built-ins and every name registered so far; "
+              "every listed name of this case (plus the fixed names and a sample of the rest) is accepted by auto.New and renders a fixed headed table without error; a (case-flipped) sub-package name with any trailing sections gives that package's table type and its direct render; "
+              "'texttable' gives the default render of texttable.New(); 'texttable.N' and bare 'N' both equal texttable with SetDecorationNamed(N); an unknown or empty name gives a text table whose Render returns an error and \"\"; auto.New(style)+Render and auto.Render(t, style) agree. "
+              "Non-trivial: the case registers a name and then resolves a style built from it, or uses a case variant, prefix or trailing section. Distinct: FNV-64 of the case."),
+        level_text="Model-based (stateful) property testing over a growing global registry, with a differential oracle (style string versus the renderer selected directly). Exploration level.",
+        level_note="Names containing a dot or equal (case-insensitively) to a sub-package name are not top-level style names by the documentation and are not generated; nothing is asserted about case variants of decoration names or about sections after 'texttable.NAME'.",
+        technique="model-based stateful property testing (rapid) with a differential oracle",
+        quick=[rapid("prop", "TestProp", 750, shards=4)],
+        thorough=[rapid("prop", "TestProp", 2000, shards=16)],
+    ),
 }
 
 # properties deliberately not claimed, with the reason (empty: the technique applies to all 19)
